@@ -1306,7 +1306,8 @@ func (se StringExpression) Write(w io.Writer, indent int) error {
 	if isWhitespace(se.Expression.Value) {
 		se.Expression.Value = ""
 	}
-	return writeIndent(w, indent, `{ `, se.Expression.Value, ` }`)
+	// The expression can end with white space (e.g. after a trailing comment or comma), don't add to it on every run.
+	return writeIndent(w, indent, `{ `, strings.TrimRightFunc(se.Expression.Value, unicode.IsSpace), ` }`)
 }
 
 // ScriptTemplate is a script block.
